@@ -4,7 +4,9 @@
 //   * both containers are read completely (forward and backward) through the public API and compared with a dumb reference model,
 //     every element read goes through the Elem registry (must be live, must own its heap block),
 //   * the number of live tracked elements in the process must equal  sum over containers (sentinel elements + elements per entry * size),
-//     so a skipped destructor, a leaked slot or a stray extra element is reported at the operation that caused it,
+//     so a skipped destructor, a leaked slot or a stray extra element is reported at the operation that caused it; "sentinel elements" = the
+//     number of tracked elements an empty container holds by itself (an embedded end node with a default constructed key/value, or none): the API
+//     does not promise it, so it is measured on a default constructed container at the start of every case, not assumed,
 //   * the Elem registry itself fails on construct-over-live / destroy-not-live / use-not-live, ASan/LSan on the heap blocks.
 // Self-argument operations are compared with "copy the argument first, then call" applied to the model.
 #include "vh.hpp"
@@ -78,42 +80,42 @@ static void sortLongs(Vec<long>& a) { for (size_t i = 1; i < a.n; ++i) { long x 
 
 // ------------------------------------------------------------------------------------------------ traits
 enum Order { SEQ, SORTED, MULTI, HASHED };
-struct TArray { typedef Array<Elem> C; enum { PER = 1, SENT = 0, ORDER = SEQ, KEYED = 0, FB = 1 }; static const char* name() { return "Array"; }
+struct TArray { typedef Array<Elem> C; enum { PER = 1, ORDER = SEQ, KEYED = 0, FB = 1 }; static const char* name() { return "Array"; }
   static Ent get(const C::Iterator& it) { return mk(rd(*it), 0); } static long front(C& c) { return rd(c.front()); } static long back(C& c) { return rd(c.back()); }
   static C* create(Rng& r) { return r.chance(1, 3) ? new C((usize)r.range(0, 9)) : new C; }
   static void add(C& c, Model& m, long k, long v) { (void)k; c.append(Elem(v)); m.push(mk(v, 0)); }
   static void dropFront(C& c, Model& m) { c.removeFront(); m.removeAt(0); } };
-struct TList { typedef List<Elem> C; enum { PER = 1, SENT = 1, ORDER = SEQ, KEYED = 0, FB = 1 }; static const char* name() { return "List"; }
+struct TList { typedef List<Elem> C; enum { PER = 1, ORDER = SEQ, KEYED = 0, FB = 1 }; static const char* name() { return "List"; }
   static Ent get(const C::Iterator& it) { return mk(rd(*it), 0); } static long front(C& c) { return rd(c.front()); } static long back(C& c) { return rd(c.back()); }
   static C* create(Rng&) { return new C; }
   static void add(C& c, Model& m, long k, long v) { (void)k; c.append(Elem(v)); m.push(mk(v, 0)); }
   static void dropFront(C& c, Model& m) { c.removeFront(); m.removeAt(0); } };
-struct TMap { typedef Map<Elem, Elem> C; enum { PER = 2, SENT = 2, ORDER = SORTED, KEYED = 1, FB = 1 }; static const char* name() { return "Map"; }
+struct TMap { typedef Map<Elem, Elem> C; enum { PER = 2, ORDER = SORTED, KEYED = 1, FB = 1 }; static const char* name() { return "Map"; }
   static Ent get(const C::Iterator& it) { return mk(rd(it.key()), rd(*it)); } static long front(C& c) { return rd(c.front()); } static long back(C& c) { return rd(c.back()); }
   static C* create(Rng&) { return new C; }
   static void add(C& c, Model& m, long k, long v) { c.insert(Elem(k), Elem(v)); mapPut(m, k, v); }
   static void dropFront(C& c, Model& m) { c.removeFront(); m.removeAt(0); } };
-struct TMultiMap { typedef MultiMap<Elem, Elem> C; enum { PER = 2, SENT = 2, ORDER = MULTI, KEYED = 1, FB = 1 }; static const char* name() { return "MultiMap"; }
+struct TMultiMap { typedef MultiMap<Elem, Elem> C; enum { PER = 2, ORDER = MULTI, KEYED = 1, FB = 1 }; static const char* name() { return "MultiMap"; }
   static Ent get(const C::Iterator& it) { return mk(rd(it.key()), rd(*it)); } static long front(C& c) { return rd(c.front()); } static long back(C& c) { return rd(c.back()); }
   static C* create(Rng&) { return new C; }
   static void add(C& c, Model& m, long k, long v) { c.insert(Elem(k), Elem(v)); multiPut(m, k, v); }
   static void dropFront(C& c, Model& m) { c.removeFront(); m.removeAt(0); } };
-struct THashMap { typedef HashMap<Elem, Elem> C; enum { PER = 2, SENT = 2, ORDER = HASHED, KEYED = 1, FB = 1 }; static const char* name() { return "HashMap"; }
+struct THashMap { typedef HashMap<Elem, Elem> C; enum { PER = 2, ORDER = HASHED, KEYED = 1, FB = 1 }; static const char* name() { return "HashMap"; }
   static Ent get(const C::Iterator& it) { return mk(rd(it.key()), rd(*it)); } static long front(C& c) { return rd(c.front()); } static long back(C& c) { return rd(c.back()); }
   static C* create(Rng& r) { return r.chance(1, 4) ? new C : new C((usize)r.range(0, 5)); }
   static void add(C& c, Model& m, long k, long v) { c.append(Elem(k), Elem(v)); hashPut(m, m.n, k, v, true); }
   static void dropFront(C& c, Model& m) { c.removeFront(); m.removeAt(0); } };
-struct THashSet { typedef HashSet<Elem> C; enum { PER = 1, SENT = 1, ORDER = HASHED, KEYED = 0, FB = 1 }; static const char* name() { return "HashSet"; }
+struct THashSet { typedef HashSet<Elem> C; enum { PER = 1, ORDER = HASHED, KEYED = 0, FB = 1 }; static const char* name() { return "HashSet"; }
   static Ent get(const C::Iterator& it) { return mk(rd(*it), 0); } static long front(C& c) { return rd(c.front()); } static long back(C& c) { return rd(c.back()); }
   static C* create(Rng& r) { return r.chance(1, 4) ? new C : new C((usize)r.range(0, 5)); }
   static void add(C& c, Model& m, long k, long v) { (void)v; c.append(Elem(k)); hashPut(m, m.n, k, 0, false); }
   static void dropFront(C& c, Model& m) { c.removeFront(); m.removeAt(0); } };
-struct TPoolList { typedef PoolList<Elem> C; enum { PER = 1, SENT = 0, ORDER = SEQ, KEYED = 0, FB = 0 }; static const char* name() { return "PoolList"; }
+struct TPoolList { typedef PoolList<Elem> C; enum { PER = 1, ORDER = SEQ, KEYED = 0, FB = 0 }; static const char* name() { return "PoolList"; }
   static Ent get(const C::Iterator& it) { return mk(rd(*it), 0); } static long front(C&) { return 0; } static long back(C&) { return 0; }   // front()/back() cannot be instantiated
   static C* create(Rng&) { return new C; }
   static void add(C& c, Model& m, long k, long v) { (void)k; c.append(v); m.push(mk(v, 0)); }
   static void dropFront(C& c, Model& m) { c.removeFront(); m.removeAt(0); } };
-struct TPoolMap { typedef PoolMap<Elem, PVal> C; enum { PER = 2, SENT = 2, ORDER = HASHED, KEYED = 1, FB = 1 }; static const char* name() { return "PoolMap"; }
+struct TPoolMap { typedef PoolMap<Elem, PVal> C; enum { PER = 2, ORDER = HASHED, KEYED = 1, FB = 1 }; static const char* name() { return "PoolMap"; }
   static Ent get(const C::Iterator& it) { return mk(rd(it.key()), rd((*it).e)); } static long front(C& c) { return rd(c.front().e); } static long back(C& c) { return rd(c.back().e); }
   static C* create(Rng& r) { return r.chance(1, 4) ? new C : new C((usize)r.range(0, 5)); }
   static void add(C& c, Model& m, long k, long v) { bool had = findKey(m, k) < m.n; PVal& pv = c.append(Elem(k)); if (!had) pv.e.id = v; hashPut(m, m.n, k, v, false); }
@@ -156,8 +158,9 @@ static const int NK = 24;
 template <class Tr> struct World {
   typedef typename Tr::C C; typedef typename C::Iterator It;
   C* c[2]; Model m[2]; Rng& r; long nextId; int universe; long extra;   // extra: tracked elements held by short-lived copies right now
+  long sent;                                                            // tracked elements an empty container of this type holds by itself (measured, see histories)
   int w[NK]; int wtot; bool removed, copied, selfArg; size_t maxn; u64 fp; long ops;
-  World(Rng& rr) : r(rr), nextId(1000), extra(0), removed(false), copied(false), selfArg(false), maxn(0), fp(0), ops(0) { c[0] = c[1] = 0; }
+  World(Rng& rr) : r(rr), nextId(1000), extra(0), sent(0), removed(false), copied(false), selfArg(false), maxn(0), fp(0), ops(0) { c[0] = c[1] = 0; }
   long key() { return (long)r.below((u64)universe); }
   long fresh() { return nextId++; }
   int pick() { int p = (int)r.below((u64)wtot), k = 0; while (p >= w[k]) p -= w[k++]; return k; }
@@ -166,9 +169,9 @@ template <class Tr> struct World {
     setItem("op_classes", cx); ++ops; for (const char* p = tmp; *p; ++p) fp = mix(fp, (u64)(unsigned char)*p);
   }
   void checkLive() {
-    long want = extra + 2 * Tr::SENT + Tr::PER * (long)(m[0].n + m[1].n), have = ElemReg::liveCount();
+    long want = extra + 2 * sent + Tr::PER * (long)(m[0].n + m[1].n), have = ElemReg::liveCount();
     if (have != want) fail(keyOf("live-count"), "%ld tracked elements are live, the containers account for %ld (%s: %lu and %lu entries, %d elements per entry, %d per sentinel, %ld in temporaries)",
-                           have, want, Tr::name(), (unsigned long)m[0].n, (unsigned long)m[1].n, (int)Tr::PER, (int)Tr::SENT, extra);
+                           have, want, Tr::name(), (unsigned long)m[0].n, (unsigned long)m[1].n, (int)Tr::PER, (int)sent, extra);
     cnt("live_count_checks");
   }
   void check() { verify<Tr>(*c[0], m[0], "c0"); verify<Tr>(*c[1], m[1], "c1"); checkLive(); if (m[0].n > maxn) maxn = m[0].n; if (m[1].n > maxn) maxn = m[1].n; }
@@ -178,13 +181,13 @@ template <class Tr> struct World {
 template <class Tr> static void opCopyConstruct(World<Tr>& w, int i, const char* cx) {
   typedef typename Tr::C C;
   w.op(cx, "{ copy(c%d)", i); w.copied = true;
-  { C cp(*w.c[i]); Model mm(w.m[i]); w.extra = Tr::SENT + Tr::PER * (long)mm.n;
+  { C cp(*w.c[i]); Model mm(w.m[i]); w.extra = w.sent + Tr::PER * (long)mm.n;
     verify<Tr>(cp, mm, "copy"); w.checkLive();
     if (mm.n) { typename C::Iterator a = cp.begin(), b = w.c[i]->begin(); if ((const void*)&*a == (const void*)&*b) fail(keyOf("shallow"), "the copy's first element lives at the source's address"); }
     // independence: change the copy, the source must not notice; then change the source, the copy must not notice
     hist.add("  copy: drop front, add one\n");
     if (mm.n) Tr::dropFront(cp, mm);
-    Tr::add(cp, mm, w.key(), w.fresh()); w.extra = Tr::SENT + Tr::PER * (long)mm.n;
+    Tr::add(cp, mm, w.key(), w.fresh()); w.extra = w.sent + Tr::PER * (long)mm.n;
     verify<Tr>(cp, mm, "copy"); verify<Tr>(*w.c[i], w.m[i], "source-of-copy"); w.checkLive();
     hist.add("  source: add one\n");
     Tr::add(*w.c[i], w.m[i], w.key(), w.fresh());
@@ -498,6 +501,11 @@ template <class Tr> static void histories(void (*step)(World<Tr>&), int kinds, u
     Rng r(opts.seed, modeConst, (u64)idx);
     ElemReg::reset();
     World<Tr> w(r);
+    { // elements an empty container holds by itself: whatever the library does, as long as construction and destruction agree (uses no randomness)
+      setctx("constructor/empty-container"); long before = ElemReg::liveCount(); typename Tr::C* t = new typename Tr::C; w.sent = ElemReg::liveCount() - before;
+      setctx("destructor/empty-container"); delete t;
+      if (ElemReg::liveCount() != before || w.sent < 0) fail(keyOf("live-count"), "an empty %s constructed %ld tracked elements, %ld are left after its destruction", Tr::name(), w.sent, ElemReg::liveCount() - before);
+      statMax("max_elements_held_by_empty_container", w.sent); }
     w.universe = (int)(r.chance(1, 3) ? r.range(1, 5) : r.range(5, 24));
     int nops = (int)r.range(20, r.chance(1, 6) ? 500 : 120) * g_lengthFactor;
     elemHashMode = (long)r.below(5);
